@@ -829,10 +829,21 @@ impl RestorePlan {
         repo: &Repository<S>,
         ignore_mtime: bool,
     ) -> RusticResult<AddFileResult> {
-        let mut open_file = dest.get_matching_file(&name, file.meta.size);
+        // Nodes saved from a stream (stdin, command output) report size 0 although they have content:
+        // take the size of such a file from its blobs.
+        let size = if file.meta.size == 0 {
+            let mut size = 0;
+            for id in file.content.iter().flatten() {
+                size += u64::from(repo.get_index_entry(id)?.location.data_length());
+            }
+            size
+        } else {
+            file.meta.size
+        };
+        let mut open_file = dest.get_matching_file(&name, size);
 
         // Empty files which exists with correct size should always return Ok(Existing)!
-        if file.meta.size == 0
+        if size == 0
             && let Some(meta) = open_file
                 .as_ref()
                 .map(std::fs::File::metadata)
@@ -869,10 +880,10 @@ impl RestorePlan {
                     .modified()
                     .ok()
                     .and_then(|t| Timestamp::try_from(t).ok());
-                if meta.len() == file.meta.size && mtime == file.meta.mtime {
+                if meta.len() == size && mtime == file.meta.mtime {
                     // File exists with fitting mtime => we suspect this file is ok!
                     debug!("file {} exists with suitable size and mtime, accepting it!",name.display());
-                    self.matched_size += file.meta.size;
+                    self.matched_size += size;
                     return Ok(AddFileResult::Existing);
                 }
             }
